@@ -36,6 +36,26 @@ theorem parse_render_roundtrip (e : Expr) (hw : wf e = true) (hh : height e ≤ 
     have : ts.map ptOf = rtoks e := by simpa [h, Except.toOption] using hl
     simp [this, hp]
 
+/-- WHITE SPACE: the same for the text written with ANY non-empty string of blanks (space, tab, LF, CR — `Render.Blanks`) after
+each token instead of the single space of the canonical text (`Render.renderW`; nothing is inserted inside `axis::test`,
+where the unrepaired tokenizer accepts none — F351), after any amount of leading white space: `parse` does not depend on
+the amount or kind of white space between tokens. -/
+theorem parse_render_ws_roundtrip (e : Expr) (hw : wf e = true) (hh : height e ≤ XpConsts.maxBlockDepth)
+    (bs : List Bytes) (hb : Blanks bs) (lead : Bytes) (hl : ∀ c ∈ lead, Path.isWs c = true) :
+    parse (lead ++ renderW bs e) = some e := by
+  obtain ⟨ps, hp⟩ := LemmasParse.parseToks_rtoks e hw hh
+  have hlx := LemmasLexRt.lex_renderW_lead e hw bs hb lead hl
+  unfold parse parseFull
+  cases h : lex (lead ++ renderW bs e) with
+  | error er => simp [h, Except.toOption] at hlx
+  | ok ts =>
+    have : ts.map ptOf = rtoks e := by simpa [h, Except.toOption] using hlx
+    simp [this, hp]
+
+/-- non-vacuity: tabs, newlines and runs of blanks -/
+example : Blanks [[0x09], [0x0a, 0x20], [0x20, 0x20, 0x0d]] := by
+  intro b hb; simp at hb; rcases hb with rfl | rfl | rfl <;> exact ⟨by simp, by decide⟩
+
 /-- … also after any amount of leading white space (the canonical text itself ends with a blank) -/
 theorem parse_render_roundtrip_lead (e : Expr) (hw : wf e = true) (hh : height e ≤ XpConsts.maxBlockDepth) (lead : Bytes)
     (hl : ∀ c ∈ lead, Path.isWs c = true) : parse (lead ++ render e) = some e := by
